@@ -18,6 +18,12 @@ CHECKS = {
   design="§5 C12"),
 }
 
+CHECKS["C14"] = dict(
+  text="Lean theorems (unbounded, for every regex/duration oracle): FilterAndAnnotate returns exactly the nodes satisfying some filter line (AND of possibly negated OR-of-values conditions on name/subtag with exact/keyword/regex values), once each, in pool order, with the annotation of the first satisfied line; no filter = all nodes; an invalid filter/annotation/policy anywhere is an error for every pool (error_iff_invalid, invalid_always_reported); policy parsing and fixed(i) selection characterised. Tied to /repo by differential runs of the real parser + FilterAndAnnotate + DialerGroup construction/Select.",
+  note="Trusted: Lean kernel + standard axioms; regexp2 and time.ParseDuration are oracles (theorems hold for every oracle; answers supplied by the real libraries at run time); the group loop of NewControlPlane is replicated in the harness.",
+  technique="Lean 4 proof over executable model + differential correspondence (go test -overlay)",
+  design="§10 C14")
+
 def main():
     checks = []
     for pid in ALL:
